@@ -41,9 +41,76 @@ type c17plan struct {
 }
 
 func c17(c *wk.Ctx) {
-	c.Note("rule", "each plan: one endpoint over a harness stream, 2-12 goroutines released by a barrier doing PRNG-chosen MakeHandler / AddHandler / ReceiveAny (filters: never/always/pattern x keep/self-remove after n, with scheduling yields inside the filter), RemoveHandler (live, stale, unknown, negative ids), peer frames, then local Close() or peer close, possibly concurrent with further operations. Oracle at quiescence (decided by the goroutine-state quiescence detector, not a timeout): every handler whose MakeHandler returned before shutdown started has closer==1 and queue closed once; others <=1; no filter match after the closer ran; RemoveHandler of unknown/removed ids returns an error; an id is never handed out while its previous holder is still open; no panic (child crash), no deadlock; stream blocked-reply = the connection is shut down (locally or by the peer) while the endpoint is blocked writing a 'consumer blocked' reply to a peer that does not read (bounded harness stream): the shutdown must complete and every handler be closed once. Distinct non-trivial = distinct plans in which at least two goroutines operated on the handler table and shutdown closed at least one handler.")
+	c.Note("rule", "each plan: one endpoint over a harness stream, 2-12 goroutines released by a barrier doing PRNG-chosen MakeHandler / AddHandler / ReceiveAny (filters: never/always/pattern x keep/self-remove after n, with scheduling yields inside the filter), RemoveHandler (live, stale, unknown, negative ids), peer frames, then local Close() or peer close, possibly concurrent with further operations. Oracle at quiescence (decided by the goroutine-state quiescence detector, not a timeout): every handler whose MakeHandler returned before shutdown started has closer==1 and queue closed once; others <=1; no filter match after the closer ran; RemoveHandler of unknown/removed ids returns an error; an id is never handed out while its previous holder is still open; no panic (child crash), no deadlock; stream blocked-reply = the connection is shut down (locally or by the peer) while the endpoint is blocked writing a 'consumer blocked' reply to a peer that does not read (bounded harness stream): the shutdown must complete and every handler be closed once. Stream unknown-ids = with 0-25 handlers registered and a few removed, RemoveHandler of every id from -3 to n+24 that is not held returns an error, does not panic and closes nothing. Distinct non-trivial = distinct plans in which at least two goroutines operated on the handler table and shutdown closed at least one handler.")
 	c.Cases("plan", c.Pick(5000, 100000), func(i int, rng *rand.Rand) { c17one(c, i, rng) })
+	c.Cases("unknown-ids", c.Pick(300, 5000), func(i int, rng *rand.Rand) { c17unknown(c, i, rng) })
 	c.Cases("blocked-reply", c.Pick(60, 3000), func(i int, rng *rand.Rand) { c17blocked(c, i, rng) })
+}
+
+// c17unknown: removal of every id around the handler table (never handed out, negative, just past the
+// end, already removed) on an endpoint with n live handlers: an error, no panic, the live handlers untouched.
+func c17unknown(c *wk.Ctx, i int, rng *rand.Rand) {
+	var progress int64
+	a, b := ctl.Pair("endpoint", "peer", &progress)
+	ep := qnet.NewEndPoint(a)
+	n := rng.Intn(26)
+	closers := make([]int32, n)
+	ids := map[int]int{}
+	for k := 0; k < n; k++ {
+		k := k
+		q := make(chan *qnet.Message, 4)
+		id := ep.MakeHandler(func(*qnet.Header) (bool, bool) { return false, true }, q, func(error) { atomic.AddInt32(&closers[k], 1) })
+		if _, dup := ids[id]; dup {
+			c.Viol("unknown-ids", i, "id=reused-while-open", fmt.Sprintf("MakeHandler handed out id %d twice", id), nil)
+		}
+		ids[id] = k
+	}
+	// remove a few, so that stale ids exist too
+	removed := map[int]bool{}
+	for id, k := range ids {
+		if rng.Intn(4) == 0 {
+			if err := ep.RemoveHandler(id); err != nil {
+				c.Viol("unknown-ids", i, "remove=live-refused", fmt.Sprintf("RemoveHandler(%d) of a live handler: %v", id, err), nil)
+			}
+			removed[id] = true
+			_ = k
+		}
+	}
+	detail := map[string]interface{}{"live_handlers": n - len(removed), "removed": len(removed)}
+	checked := 0
+	for id := -3; id <= n+24; id++ {
+		if _, live := ids[id]; live && !removed[id] {
+			continue
+		}
+		var err error
+		pv, stack := wk.Try(func() { err = ep.RemoveHandler(id) })
+		if pv != nil {
+			c.Viol("unknown-ids", i, "remove=panic/"+wk.PanicSite(stack), fmt.Sprintf("RemoveHandler(%d) with %d handlers registered panicked: %v", id, n, pv), detail)
+			break
+		}
+		if err == nil {
+			c.Viol("unknown-ids", i, "remove=unknown-accepted", fmt.Sprintf("RemoveHandler(%d) of an id that is not held returned nil (%d handlers registered)", id, n), detail)
+			break
+		}
+		checked++
+	}
+	for id, k := range ids {
+		want := int32(0)
+		if removed[id] {
+			want = 1
+		}
+		if got := atomic.LoadInt32(&closers[k]); got != want {
+			c.Viol("unknown-ids", i, "remove=unknown-closed-a-handler", fmt.Sprintf("handler %d: closer ran %d times, expected %d", id, got, want), detail)
+			break
+		}
+	}
+	ep.Close()
+	b.Close()
+	c.Count("unknown_id_removals_checked", int64(checked))
+	c.Nontrivial(wk.Hash64("C17unknown", n, len(removed)))
+	if c.WantSample() && i%50 == 0 {
+		c.Sample(map[string]interface{}{"stream": "unknown-ids", "handlers": n, "removed_first": len(removed), "unknown_ids_tried": checked})
+	}
 }
 
 // c17blocked: the endpoint is busy answering "consumer blocked" to a peer that does not read (its
